@@ -120,6 +120,8 @@ func c12Entries() []c12Entry {
 		}})
 	}
 	out("json", gtree.WithEncodeJSON())
+	out("json+dryrun", gtree.WithEncodeJSON(), gtree.WithDryRun())
+	out("dryrun+yaml+ext", gtree.WithDryRun(), gtree.WithEncodeYAML(), gtree.WithFileExtensions([]string{".go", ""}))
 	out("yaml", gtree.WithEncodeYAML())
 	out("toml", gtree.WithEncodeTOML())
 	out("dryrun", gtree.WithDryRun(), gtree.WithFileExtensions([]string{".go"}))
@@ -213,6 +215,16 @@ func runC12(c *Ctx) bool {
 			}
 		}
 		emit("blank-only", sb.String())
+	}
+	// ... and lines of white space that is not ASCII (what an input method or a web page leaves on an
+	// "empty" line): blank all the same
+	for _, d := range []string{"\u3000\n", "\u00a0", "\u3000\n\u00a0\t\n\u2003 \n", "\u0085\n", "\u2028", " \u3000 \r\n\u2000\u200a\r\n", "\v\f\n"} {
+		emit("blank-only", d)
+	}
+	// several root blocks, each with a name no directory can have: every block fails where names are
+	// validated, and all the failures must find their way out
+	for _, d := range []string{"- r1\n  - a/b\n- r2\n  - c/d\n- r3\n  - ..\n", "- r1\n  - a/b\n- r2\n  - c/d\n- r3\n  - e/f\n- r4\n  - g/h\n- r5\n  - ../x\n- r6\n  - ok\n"} {
+		emit("several-invalid-roots", d)
 	}
 	// size extremes
 	big := []string{
